@@ -255,3 +255,29 @@ func harnessFloodWitness() {
 	}
 	_ = net.IP{}
 }
+
+// C11 base case: what an origin emits satisfies the message invariant that
+// harnessC11Step assumes (path = [origin], seen-by contains the origin), once
+// per neighbour.
+func harnessC11Base() {
+	neighbours := fSubset(4)
+	f, snd, rm := fNew(0, neighbours)
+	if verif_nondet_bool() {
+		rm.AddLocalRoute(&net.IPNet{IP: net.IP{10, verif_nondet_u8(), 0, 0}, Mask: net.CIDRMask(16, 32)}, 0)
+	}
+	f.AnnounceLocalRoutes()
+	verif_reach("C11/base")
+	verif_assert(len(snd.log) == len(neighbours), "C11/origin-does-not-send-once-per-neighbour")
+	for i, s := range snd.log {
+		for j := i + 1; j < len(snd.log); j++ {
+			verif_assert(snd.log[j].to != s.to, "C11/sent-twice-to-one-neighbour")
+		}
+		adv, err := protocol.DecodeRouteAdvertise(s.f.Payload)
+		verif_assert(err == nil && adv.OriginAgent == fID(fLocal), "C11/origin-announcement-identity")
+		if err != nil {
+			return
+		}
+		verif_assert(len(adv.Path) == 1 && adv.Path[0] == fID(fLocal), "C11/origin-path-is-not-itself")
+		verif_assert(fHas(adv.SeenBy, fID(fLocal)), "C11/origin-not-in-its-own-seen-by")
+	}
+}
